@@ -27,25 +27,26 @@ var registry = map[string]*Check{}
 
 // ruleAddenda: driver extensions added after the first build (each closes a hole a deliberate change slipped through); appended to Rule.
 var ruleAddenda = map[string]string{
-	"C19": "group live-credential-sequences: on ONE long-lived server every sequence of 3 (thorough 4) actions touching alice's credentials (logins and SSO with posted credentials, password change, profile change, deletion; at most one bcrypt-cost password change per sequence)",
-	"C12": "endpoint variant resploc (IdP logout endpoints advertise a ResponseLocation: requests still go to Location)",
-	"C11": "group wrapped-key-length: EncryptedKey CipherValue of 0, 1, k-1, k, k+1, k+2, k+16, 2k, 2k+1, 4k bytes for 3 RSA keys x 3 key transports x both entry elements x with/without embedded certificate; via-sp layouts with RetrievalMethod",
-	"C10": "RSA keys whose modulus is not a whole number of bytes (2047, 2044, 1031 bits); group results-independent-across-calls: all sequences of 2-3 Encrypt calls followed by the Decrypts over 7 lengths per block cipher, every returned plaintext and element compared again after the later calls",
-	"C01": "operators that re-bind a namespace prefix elsewhere in the document (an x:Assertion under a foreign binding plus a later element re-declaring x), reached in pairs at depth 2; group no-signing-key-published: every initial document and every depth-1 document under IdP metadata that publishes an encryption key only / an empty signing descriptor (nothing may be accepted); a trust configuration with ordinary metadata and an application SignatureVerifier that refuses everything",
-	"C02": "group window-product-option-axes: the 4^5 product again with AllowIDPInitiated set, and for assertion-only signatures with the Response's Destination absent; the same group with the varied confirmation declared holder-of-key / sender-vouches (the window holds for every confirmation)",
-	"C03": "lattice fields method (bearer / holder-of-key / sender-vouches on one or all confirmations; acceptance of non-bearer confirmations is DONT_CARE) and idpinit (AllowIDPInitiated); fields issuerFormat (Format attribute of the Response / Assertion Issuer) and irt (unsolicited: no InResponseTo anywhere); second pass options-product-x-single-deviation: full product of the four option fields with <= 1 addressing field away from correct",
-	"C04": "a 'no SubjectConfirmation at all' value at the confirmation level; group middleware-acs: 0-2 flows started through samlsp.Middleware, every subset of their tracking cookies presented, 6x6 InResponseTo choices, AllowIDPInitiated, both layouts, POSTed to the real ServeACS; decoy cookies in middleware-acs (a session token of the same middleware, or garbage, under a tracking-cookie name)",
-	"C06": "request kinds that select a registered non-POST endpoint by URL or index; axis reqextra (NameIDPolicy formats, SPNameQualifier, a Subject naming another principal) with a non-interference oracle: identity asserted for the same session must equal the one for the same request without that content; SP metadata whose ACS endpoints carry a ResponseLocation; IdP configuration with an external Signer and a stale private key left in Key",
-	"C07": "group rollover-sequences: all 27 length-3 re-keying sequences of the IdP (same entity ID, the SP object kept and handed the re-published metadata) and of the SP (IdP object kept), with and without encryption, a fresh login after every step; session fields EduPersonPrincipalName (next to a different UserEmail) and SubjectID as string positions; group idp-intermediates",
-	"C08": "key descriptors listing a certificate chain (first certificate is the key holder's); 5 role-descriptor arrangements (leading/trailing artifact-only SPSSODescriptor, POST ACS in second position) for both launch kinds; group idp-side-retry-after-failed-encryption: the k-th draw from the random source fails (k=0..5) on ONE IdpAuthnRequest, WriteResponse attempted three times; group idp-side-overlapping-responses: two responses built by two threads under the controlled scheduler with every draw from the random source a scheduling point (quick: <= 2 preemptions on 3 layouts; thorough: all interleavings on all layouts), content keys / IVs distinct and non-degenerate",
-	"C09": "group response-placements: payload (plain / deflated / deflate bombs of 11 and 64 MB) in the form field, the query string, both, GET - for ParseResponse and ValidateLogoutResponseRequest with an allocation bound; group encrypted-assertion-ciphertext-lengths: EncryptedAssertion whose key genuinely unwraps, 5 block algorithms x 2 key transports x 24 data lengths around every block boundary x 2 signing layouts; group keyinfo-shapes-x-trust-configurations: 19 shapes of the (unsigned) KeyInfo x 10 trust configurations (metadata variants, fingerprint incl. unknown / missing algorithm, pinned incl. garbage, no signing key) x 5 message kinds; group encrypted-assertion-key-placement: EncryptedKey embedded / sibling / both, RetrievalMethod with 28 URI forms, 5 Id values",
-	"C13": "option 3: IdP logout endpoints advertising a ResponseLocation; group reconfiguration-sequences: ONE ServiceProvider value whose key pair and signature method are changed between messages (all sequences of <=3 (thorough 4) configurations out of 8, last message of each of the 7 kinds), every message verified against the configuration in force; group sign-again: the exported Sign* methods applied to an already signed message (twice, three times, after editing a field) for 4 message kinds x 2 key types",
-	"C14": "form idp-response-sp-initiated: the peer string arrives inside the AuthnRequest (AssertionConsumerServiceURL next to a valid index; RelayState) and the form must post to the registered location",
+	"C05": "request URLs that are near misses of a registered location (added query, suffix, dot segments, trailing slash, truncation, case, fragment, userinfo trick, trailing blank); one long-lived IdentityProvider value per worker",
+	"C19": "group live-credential-sequences: on ONE long-lived server every sequence of 3 (thorough 4) actions touching alice's credentials (logins and SSO with posted credentials, password change, profile change, deletion; at most one bcrypt-cost password change per sequence); credentials at bcrypt's 72-byte boundary in the live credential sequences; a registered SP without any HTTP-POST endpoint (service and shortcut)",
+	"C12": "endpoint variant resploc (IdP logout endpoints advertise a ResponseLocation: requests still go to Location); AuthnRequests asking for the HTTP-Artifact response binding; group outputs-checked-after-later-calls (every ordered pair and a-b-a triple of message kinds, each output decoded only after all were produced, on the value returned)",
+	"C11": "group wrapped-key-length: EncryptedKey CipherValue of 0, 1, k-1, k, k+1, k+2, k+16, 2k, 2k+1, 4k bytes for 3 RSA keys x 3 key transports x both entry elements x with/without embedded certificate; via-sp layouts with RetrievalMethod; every structure case presented three times in a row with the same key (a certificate mismatch must be refused every time); the harness carries its own RIPEMD-160 so that linking it does not register the hash for the library",
+	"C10": "RSA keys whose modulus is not a whole number of bytes (2047, 2044, 1031 bits); group results-independent-across-calls: all sequences of 2-3 Encrypt calls followed by the Decrypts over 7 lengths per block cipher, every returned plaintext and element compared again after the later calls; reference ciphertexts with their base64 wrapped at 76 / 64 / 60 / 4 columns (LF and CRLF); the caller's key slice must be intact after every call and no valid call of a sequence may fail",
+	"C01": "operators that re-bind a namespace prefix elsewhere in the document (an x:Assertion under a foreign binding plus a later element re-declaring x), reached in pairs at depth 2; group no-signing-key-published: every initial document and every depth-1 document under IdP metadata that publishes an encryption key only / an empty signing descriptor (nothing may be accepted); a trust configuration with ordinary metadata and an application SignatureVerifier that refuses everything; group artifact-signed-envelope: 4 artifact-resolution replies (envelope signed / unsigned x inner unsigned / Response-signed / Assertion-signed) x every sequence of <= 2 out of 17 envelope-level edits (forged Response or Assertion inside the envelope's Signature Object / KeyInfo, in Status, Header, Body, before / after / instead of the real Response, second ArtifactResponse, envelope re-signed by the attacker or by a look-alike certificate); re-signing with an attacker key under a certificate that copies the IdP certificate's subject, serial and key identifiers",
+	"C02": "group window-product-option-axes: the 4^5 product again with AllowIDPInitiated set, and for assertion-only signatures with the Response's Destination absent; the same group with the varied confirmation declared holder-of-key / sender-vouches (the window holds for every confirmation); group open-side-of-each-window (2^5 combinations of instants far on the unconstrained side: IssueInstant ahead of the clock, NotBefore long past, expiries far ahead - all must be accepted); group artifact-clock-advances-during-resolution (HTTP artifact resolution through ParseResponse with a resolver that advances the library clock while answering)",
+	"C03": "lattice fields method (bearer / holder-of-key / sender-vouches on one or all confirmations; acceptance of non-bearer confirmations is DONT_CARE) and idpinit (AllowIDPInitiated); fields issuerFormat (Format attribute of the Response / Assertion Issuer) and irt (unsolicited: no InResponseTo anywhere); second pass options-product-x-single-deviation: full product of the four option fields with <= 1 addressing field away from correct; group reconfigured-sp-sequences: one ServiceProvider value (changed in place, or struct-copied) whose ACS URL, entity ID and IdP entity ID change between responses, all 56 ordered pairs of the 8 configurations, after every change the 8 responses addressed to each configuration are presented",
+	"C04": "a 'no SubjectConfirmation at all' value at the confirmation level; group middleware-acs: 0-2 flows started through samlsp.Middleware, every subset of their tracking cookies presented, 6x6 InResponseTo choices, AllowIDPInitiated, both layouts, POSTed to the real ServeACS; decoy cookies in middleware-acs (a session token of the same middleware, or garbage, under a tracking-cookie name); a third signing layout (assertion-only signature, Response without Destination) in the full product; group middleware-many-pending-requests (1..33 tracking cookies, the IdP answers the first / middle / last / a never issued one)",
+	"C06": "request kinds that select a registered non-POST endpoint by URL or index; axis reqextra (NameIDPolicy formats, SPNameQualifier, a Subject naming another principal) with a non-interference oracle: identity asserted for the same session must equal the one for the same request without that content; SP metadata whose ACS endpoints carry a ResponseLocation; IdP configuration with an external Signer and a stale private key left in Key; RequestedAttribute elements that list values; one long-lived IdentityProvider value per worker, reconfigured from case to case",
+	"C07": "group rollover-sequences: all 27 length-3 re-keying sequences of the IdP (same entity ID, the SP object kept and handed the re-published metadata) and of the SP (IdP object kept), with and without encryption, a fresh login after every step; session fields EduPersonPrincipalName (next to a different UserEmail) and SubjectID as string positions; group idp-intermediates; several pending request IDs passed to the SP (the answered one neither first nor last) on the POST-binding and encrypted configurations",
+	"C08": "key descriptors listing a certificate chain (first certificate is the key holder's); 5 role-descriptor arrangements (leading/trailing artifact-only SPSSODescriptor, POST ACS in second position) for both launch kinds; group idp-side-retry-after-failed-encryption: the k-th draw from the random source fails (k=0..5) on ONE IdpAuthnRequest, WriteResponse attempted three times; group idp-side-overlapping-responses: two responses built by two threads under the controlled scheduler with every draw from the random source a scheduling point (quick: <= 2 preemptions on 3 layouts; thorough: all interleavings on all layouts), content keys / IVs distinct and non-degenerate; encryption certificates whose keyUsage does not mention encipherment (error reply or encryption, never plaintext); group malformed-plaintext-under-signed-response (10 kinds of not-well-formed decrypted content a tolerant tokenizer would read); one long-lived IdentityProvider value per worker",
+	"C09": "group response-placements: payload (plain / deflated / deflate bombs of 11 and 64 MB) in the form field, the query string, both, GET - for ParseResponse and ValidateLogoutResponseRequest with an allocation bound; group encrypted-assertion-ciphertext-lengths: EncryptedAssertion whose key genuinely unwraps, 5 block algorithms x 2 key transports x 24 data lengths around every block boundary x 2 signing layouts; group keyinfo-shapes-x-trust-configurations: 19 shapes of the (unsigned) KeyInfo x 10 trust configurations (metadata variants, fingerprint incl. unknown / missing algorithm, pinned incl. garbage, no signing key) x 5 message kinds; group encrypted-assertion-key-placement: EncryptedKey embedded / sibling / both, RetrievalMethod with 28 URI forms, 5 Id values; IdP metadata whose signing certificate does not parse (truncated / not base64 / garbage / bad then good) among the trust configurations",
+	"C13": "option 3: IdP logout endpoints advertising a ResponseLocation; group reconfiguration-sequences: ONE ServiceProvider value whose key pair and signature method are changed between messages (all sequences of <=3 (thorough 4) configurations out of 8, last message of each of the 7 kinds), every message verified against the configuration in force; group sign-again: the exported Sign* methods applied to an already signed message (twice, three times, after editing a field) for 4 message kinds x 2 key types; group outputs-verified-after-later-calls (as C12, with signature verification; the relay state identifies which call an output belongs to)",
+	"C14": "form idp-response-sp-initiated: the peer string arrives inside the AuthnRequest (AssertionConsumerServiceURL next to a valid index; RelayState) and the form must post to the registered location; metadata endpoints with a hostile Location next to a well-formed ResponseLocation and vice versa; group login-form-shortcut-flow (the IdP-initiated login form with hostile path suffix / query / double-slash path, differential against the benign request: the action must not depend on the request)",
 	"C15": "group metadata-endpoint-location-forms: 25 lexical forms of valid http(s) URLs (case of scheme/host, non-ASCII, blanks and braces, empty fragment/query, lower- and upper-case escapes, userinfo, IPv6, dot segments, IDN) x 8 endpoint positions x 4 bindings must survive a generation verbatim; group metadata-validity-instants: 22 validUntil instants from year 1 to 9999 (around the Unix epoch, 2038, 2106, 2262, non-UTC zones) x 4 cache durations on an EntityDescriptor and inside an EntitiesDescriptor",
-	"C16": "group hand-set-lifetimes: codec and provider lifetimes set by hand (0, negative, 1 ns .. 25 h) x 9 session ages; attribute gates with near-miss values (letter case, blanks, prefixes, joined lists, attribute-name case); group idp-session-bound-vs-lifetime: AuthnStatement SessionNotOnOrAfter absent / inside / far beyond the lifetime x 1-2 statements x 10 ages x 2 lifetimes",
+	"C16": "group hand-set-lifetimes: codec and provider lifetimes set by hand (0, negative, 1 ns .. 25 h) x 9 session ages; attribute gates with near-miss values (letter case, blanks, prefixes, joined lists, attribute-name case); group idp-session-bound-vs-lifetime: AuthnStatement SessionNotOnOrAfter absent / inside / far beyond the lifetime x 1-2 statements x 10 ages x 2 lifetimes; group cross-deployment-sequences: 3 sets of 3 deployments in one process (other key, other key family, other URL, sibling path, other port), every sequence of <= 3 presentations of each deployment's session and tracking token to any deployment",
 	"C17": "one of the three protected URLs has reserved characters percent-encoded in its path (and starts with an encoded slash): it must come back verbatim; half of the configurations set their own DefaultRedirectURI (the landing page of a login without RelayState); two more configurations deliver responses by reference (HTTP-Artifact response binding, resolved by the middleware through a stub back channel that answers the ArtifactResolve it actually sent); group index-alphabet: tracking indices starting with each of the 64 base64url characters and 16 words (saml_, sso, login-1, ...) through a RelayStateFunc, one complete flow each, both request bindings",
-	"C18": "status values with nested PartialLogout / AuthnFailed under non-Success codes; group no-signing-key-published (metadata with an encryption key only / an empty signing descriptor: nothing is valid, whoever signed); group custom-signature-verifier (refusing / delegating) and group trust-rotation (one ServiceProvider, all 8 length-3 key sequences, metadata replaced or edited in place, both signers presented after every step)",
-	"C20": "store alphabet includes a Get whose destination cannot hold the stored JSON (the error path of Get); a third registered SP whose metadata carries a validUntil in the past, with an SSO request from it among the handlers",
+	"C18": "status values with nested PartialLogout / AuthnFailed under non-Success codes; group no-signing-key-published (metadata with an encryption key only / an empty signing descriptor: nothing is valid, whoever signed); group custom-signature-verifier (refusing / delegating) and group trust-rotation (one ServiceProvider, all 8 length-3 key sequences, metadata replaced or edited in place, both signers presented after every step); attacker key under a look-alike certificate; group pinned-certificate-differs-from-metadata; group redirect-input-sequences (7 inputs incl. deflate streams without a final block, cut in half, 11 MB; all pairs and triples, repeated 3 times)",
+	"C20": "store alphabet includes a Get whose destination cannot hold the stored JSON (the error path of Get); a third registered SP whose metadata carries a validUntil in the past, with an SSO request from it among the handlers; an SSO request from an unregistered SP among the handlers",
 }
 
 // Register adds a check.
